@@ -423,6 +423,29 @@ func run(c *vh.Ctx) {
 			hists = append(hists, h)
 		}
 	}
+	// corpus 9: verifying clients in the other verification modes — InsecureServerNameToVerify "*" (chain only) or another
+	// name the leaf covers, InsecureSkipTimeVerify after the leaf has expired: the cached-certificate re-check of
+	// loadSession must let the session resume whenever the current mode accepts the cached leaf
+	for _, p := range pick("Golang", "Chrome_100", "Chrome_100_PSK", "Firefox_120") {
+		for _, k := range []int{srv12, srv13} {
+			star := []connPlan{mk(p, 0, k, hour), mk(p, 0, k, hour), mk(p, 0, k, hour)}
+			other := []connPlan{mk(p, 0, k, hour), mk(p, 0, k, hour)}
+			mix := []connPlan{mk(p, 0, k, hour), mk(p, 0, k, hour), mk(p, 0, k, hour), mk(p, 0, k, hour)}
+			for i := range star {
+				star[i].VName = 1
+			}
+			for i := range other {
+				other[i].VName = 2
+			}
+			mix[1].VName, mix[2].VName = 1, 2
+			hists = append(hists, star, other, mix)
+			if p.Golang || p.HasPSK {
+				late := []connPlan{mk(p, 0, k, 41*day), mk(p, 0, k, hour), mk(p, 0, k, hour), mk(p, 0, k, hour)}
+				late[0].SkipTime, late[1].SkipTime, late[3].SkipTime = true, true, true
+				hists = append(hists, late)
+			}
+		}
+	}
 	ncorpus := len(hists)
 	// random histories
 	advs := []time.Duration{0, hour, hour, day, 3 * day, 6 * day, 8 * day}
@@ -478,6 +501,15 @@ func run(c *vh.Ctx) {
 			}
 			if c.Rng.Intn(10) == 0 {
 				pl.Tamper = true
+			}
+			if c.Rng.Intn(6) == 0 {
+				pl.VName = 1 + c.Rng.Intn(2)
+				if c.Rng.Intn(8) == 0 {
+					pl.VName = 3
+				}
+			}
+			if c.Rng.Intn(10) == 0 {
+				pl.SkipTime = true
 			}
 			h = append(h, pl)
 		}
@@ -590,7 +622,7 @@ func run(c *vh.Ctx) {
 			}
 			pl = o.Plan // connect() turns verification off for a connection without ServerName
 			name := o.Identity
-			input := map[string]any{"history": hi, "conn": j, "prep": planPrep(r.plans), "rotate_key": planRotate(r.plans), "tamper": planTamper(r.plans), "parrots": planNames(r.plans), "servers": planSrvs(r.plans),
+			input := map[string]any{"history": hi, "conn": j, "prep": planPrep(r.plans), "rotate_key": planRotate(r.plans), "tamper": planTamper(r.plans), "server_name_to_verify": planVName(r.plans), "skip_time_verify": planSkipTime(r.plans), "parrots": planNames(r.plans), "servers": planSrvs(r.plans),
 				"names": planNameIdx(r.plans), "advance_s": planAdv(r.plans), "omit_empty_psk": pl.OmitEmpty, "seed": c.Seed}
 
 			// ----- Go-side oracle, from the property text -----
@@ -648,15 +680,18 @@ func run(c *vh.Ctx) {
 				pp := r.plans[j-1]
 				prevOK := classOf(po) == 0
 				// same server configuration: a rotated ticket key is a different one
-				same := pp.P == p && pp.Name == pl.Name && pp.Srv == pl.Srv && pp.SkipVerify == pl.SkipVerify && pp.OmitEmpty == pl.OmitEmpty && !pl.Rotate
+				same := pp.P == p && pp.Name == pl.Name && pp.Srv == pl.Srv && pp.SkipVerify == pl.SkipVerify && pp.OmitEmpty == pl.OmitEmpty && !pl.Rotate &&
+					pp.VName == pl.VName && pp.SkipTime == pl.SkipTime
 				// after a resumption that failed on a corrupted entry the entry must be gone: this connection completes
-				if po.BadOffered && classOf(po) != 0 && pp.Name == pl.Name && pp.Srv == pl.Srv && !pl.Tamper && cls != 0 && cls != 4 && !(cls == 1 && !pl.OmitEmpty) {
+				if po.BadOffered && classOf(po) != 0 && pp.Name == pl.Name && pp.Srv == pl.Srv && !pl.Tamper && cls != 0 && cls != 4 && !(cls == 1 && !pl.OmitEmpty) && !strings.Contains(o.CliErr, "failed to verify certificate") {
 					c.Fail("stuck/"+p.Name+"/"+srvKindName[pl.Srv], "the connection after a failed resumption failed as well: "+o.CliErr+o.CliPanic+" / "+o.Srv.err, input,
 						map[string]any{"client_err": o.CliErr, "panic": o.CliPanic, "server_err": o.Srv.err}, "bad session evicted, full handshake completes")
 				}
 				if prevOK && cls != 0 && cls != 3 && !emsDown && !badCache {
 					key := "broken/" + p.Name + "/" + srvKindName[pl.Srv]
-					exempt := cls == 4 || (cls == 1 && !pl.OmitEmpty) // no common version; documented: PSK spec needs OmitEmptyPsk
+					// no common version; documented: PSK spec needs OmitEmptyPsk; the full handshake's own certificate
+					// verification refused the server (expired leaf without InsecureSkipTimeVerify, a name it does not cover)
+					exempt := cls == 4 || (cls == 1 && !pl.OmitEmpty) || strings.Contains(o.CliErr, "failed to verify certificate")
 					if cls == 2 {
 						key = "psk-hrr/" + p.Name
 					}
@@ -712,10 +747,11 @@ func run(c *vh.Ctx) {
 				svIdx[svk] = len(svTab)
 				svTab = append(svTab, serverCoq(pl.Srv, o.Epoch, notAfter, srvSuites))
 			}
-			items = append(items, fmt.Sprintf("(mkRef %d %d %d %d %d %s %s %d %d, mkSeen %s %d %s %d %s %s %s)",
-				spIdx[p], svIdx[svk], nameID(pl.Name), addrID(pl.Srv), o.Now, vh.Bool(pl.OmitEmpty), vh.Bool(pl.SkipVerify), suite, tlen,
+			items = append(items, fmt.Sprintf("(mkRef %d %d %d %d %d %s %s %d %d %d %s, mkSeen %s %d %s %d %s %s %s)",
+				spIdx[p], svIdx[svk], nameID(pl.Name), addrID(pl.Srv), o.Now, vh.Bool(pl.OmitEmpty), vh.Bool(pl.SkipVerify), suite, tlen, vnameID[pl.VName], vh.Bool(pl.SkipTime),
 				vh.Bool(o.Tampered), cls, vh.Bool(o.CliResumed), code, vh.Bool(helloEMS), vh.Bool(o.CliHRRSeen), vh.List(cacheItems)))
 			fmt.Fprintf(&keyb, "%s/%d/%d/%d/%v/%v/%d/%v/%v;", p.Name, pl.Name, pl.Srv, pl.Advance/time.Second, pl.OmitEmpty, pl.SkipVerify, pl.Prep, pl.Rotate, pl.Tamper)
+			fmt.Fprintf(&keyb, "v%d/%v;", pl.VName, pl.SkipTime)
 
 			// PSK extension length accounting
 			if len(o.Srv.hellos) > 0 && o.Srv.hellos[0].HasPSK {
@@ -816,6 +852,20 @@ func planPrep(ps []connPlan) []int {
 	r := make([]int, len(ps))
 	for i, p := range ps {
 		r[i] = p.Prep
+	}
+	return r
+}
+func planVName(ps []connPlan) []string {
+	r := make([]string, len(ps))
+	for i, p := range ps {
+		r[i] = vnameStr[p.VName]
+	}
+	return r
+}
+func planSkipTime(ps []connPlan) []bool {
+	r := make([]bool, len(ps))
+	for i, p := range ps {
+		r[i] = p.SkipTime
 	}
 	return r
 }
